@@ -260,6 +260,12 @@ macro_rules! family {
                             }
                         }
                         // accessors after every operation
+                        #[allow(deprecated)]
+                        let range_ok = with!(&cur, lex => lex.range() == lex.span() && !format!("{:?}", lex).is_empty());
+                        if !range_ok {
+                            fail(&hist, "range-differs-from-span", "deprecated range() differs from span()".to_string());
+                            broken = true;
+                        }
                         let (sp, sl_ok, rem_ok, src_ok, gex) = with!(&cur, lex => {
                             let sp = lex.span();
                             let valid = sp.start <= sp.end && sp.end <= len;
